@@ -88,3 +88,386 @@ Example interp_example : forall M,
 Proof.
   intros M. rewrite interp_bilinear_R by (try lia; lra). reflexivity.
 Qed.
+
+(* ============================================================================================ *)
+(* EXTENSION — the glue of arim.scat around the kernel (Model/ScatData.v, Proofs/ScatDataProofs.v) *)
+(*                                                                                              *)
+(* ScatFromData: scipy's interp1d(kind='linear') as freq_interp_matrices uses it is now INSIDE  *)
+(* the model (stable argsort of the frequencies, take, searchsorted, clip, the two weights, the *)
+(* bounds_error / fill_value handling) instead of being an oracle given by the formula `lerp`.  *)
+(* Then: the key loop and the single-frequency branch of freq_interp_matrices, __call__ (frequency *)
+(* then angle interpolation), the validation of __init__, make_angles_grid, as_single/multi_     *)
+(* freq_matrices (late initialisation with the dtype of the first frequency), rotate_matrices,   *)
+(* scat_factory.  interp1d_table kw tbl f = interp1d on the two columns of the table of rows     *)
+(* (frequency, sample) `tbl`.                                                                    *)
+(* ============================================================================================ *)
+From Coq Require Import String List Permutation.
+From Flocq Require Import Core.Raux.
+From Arim Require Import Model.ScatData Proofs.ScatDataProofs.
+Import ListNotations.
+
+(* --- A. the table of sampled frequencies ---------------------------------------------------- *)
+
+(* the two arrays that interp1d builds (x[ind], take(y, ind) with ind the stable argsort of x)
+   are the two columns of the table sorted as rows — for every numeric instance *)
+Theorem freq_sort_is_table_sort : forall (T : Type) (N : Num T) (xs ys : list T),
+  length xs = length ys ->
+  take (n0 N) xs (argsort N xs) = map fst (sort_key N (combine xs ys)) /\
+  take (n0 N) ys (argsort N xs) = map snd (sort_key N (combine xs ys)).
+Proof. exact @sorted_columns. Qed.
+
+(* the rows may be given in ANY order (distinct frequencies): same answer — value, fill value
+   or error — for every requested frequency and every interp_freq_kwargs *)
+Theorem freq_table_order_irrelevant : forall kw (t1 t2 : list (R * R)) f,
+  Permutation t1 t2 -> NoDup (map fst t1) -> interp1d_table kw t1 f = interp1d_table kw t2 f.
+Proof. exact interp1d_perm_invariant. Qed.
+
+(* interp_freq_kwargs are accepted by the constructor of interp1d unless they ask to extrapolate
+   and to raise at the same time *)
+Theorem freq_kwargs_accepted_iff : forall kw : i1kwargs (T:=R),
+  kw_ok kw <-> ~ (kw_fill kw = Extrapolate /\ kw_bounds_error kw = Some true).
+Proof. exact kw_ok_iff. Qed.
+
+Theorem freq_extrapolate_and_raise_rejected : forall xs ys f, xs <> [] ->
+  interp1d NumR (mk_kw (Some true) Extrapolate) xs ys f = inl ErrExtrapolateAndRaise.
+Proof. exact interp1d_extrapolate_and_raise. Qed.
+
+(* the data are reproduced at every sampled frequency: any order, any accepted options *)
+Theorem freq_table_exact_at_samples : forall kw (tbl : list (R * R)) x y,
+  NoDup (map fst tbl) -> (2 <= length tbl)%nat -> In (x, y) tbl -> kw_ok kw ->
+  interp1d_table kw tbl x = inr y.
+Proof. exact table_exact. Qed.
+
+(* between two sampled frequencies with no sampled frequency in between: the straight line
+   (the `lerp` of the earlier theorems), any order, any accepted options *)
+Theorem freq_table_linear_between : forall kw (tbl : list (R * R)) x0 y0 x1 y1 f,
+  NoDup (map fst tbl) -> In (x0, y0) tbl -> In (x1, y1) tbl -> no_key_between tbl x0 x1 ->
+  kw_ok kw -> x0 < f <= x1 ->
+  interp1d_table kw tbl f = inr (lerp NumR x0 x1 y0 y1 f).
+Proof. exact table_linear_between. Qed.
+
+(* below the smallest sampled frequency x0 (x1 the next one): the first segment extended
+   (fill_value='extrapolate', arim's default), else ValueError (bounds_error true or left to its
+   default), else the `below` fill value *)
+Theorem freq_table_below_range : forall kw (tbl : list (R * R)) x0 y0 x1 y1 f extrap be below above,
+  NoDup (map fst tbl) -> In (x0, y0) tbl -> In (x1, y1) tbl -> x0 < x1 -> no_key_between tbl x0 x1 ->
+  is_min_key tbl x0 -> resolve_fill NumR kw = inr (extrap, be, below, above) -> f < x0 ->
+  interp1d_table kw tbl f =
+    if extrap then inr (lerp NumR x0 x1 y0 y1 f) else if be then inl ErrBelowRange else inr below.
+Proof. exact table_below. Qed.
+
+(* above the largest sampled frequency x1 (x0 the previous one) *)
+Theorem freq_table_above_range : forall kw (tbl : list (R * R)) x0 y0 x1 y1 f extrap be below above,
+  NoDup (map fst tbl) -> In (x0, y0) tbl -> In (x1, y1) tbl -> x0 < x1 -> no_key_between tbl x0 x1 ->
+  is_max_key tbl x1 -> resolve_fill NumR kw = inr (extrap, be, below, above) -> x1 < f ->
+  interp1d_table kw tbl f =
+    if extrap then inr (lerp NumR x0 x1 y0 y1 f) else if be then inl ErrAboveRange else inr above.
+Proof. exact table_above. Qed.
+
+(* --- B. freq_interp_matrices: the dict of matrices ------------------------------------------ *)
+
+(* two or more frequencies: the keys of the result are the keys present in the data; each matrix
+   is obtained from the matrices of ITS key alone, with one and the same pair of weights *)
+Theorem freq_interp_matrices_per_key : forall kw freqs f (D : sdict (list (mat (T:=R)))) p,
+  (1 < length freqs)%nat -> interp1d_plan NumR kw freqs f = inr p ->
+  exists out, freq_interp_matrices NumR kw freqs f D = inr out /\
+    forall k, out k = match D k with Some ms => Some (apply_plan_mat NumR p ms) | None => None end.
+Proof. exact freq_interp_matrices_multi. Qed.
+
+(* ... and entry [j, i] of it is the one-dimensional interpolation of the samples [k][j, i] *)
+Theorem freq_interp_entrywise : forall kw freqs f p (ms : list (mat (T:=R))) j i,
+  interp1d_plan NumR kw freqs f = inr p ->
+  interp1d NumR kw freqs (map (fun M : mat => M j i) ms) f = inr (apply_plan_mat NumR p ms j i).
+Proof. exact apply_plan_mat_entry. Qed.
+
+(* an error of the interpolator surfaces iff at least one key is present *)
+Theorem freq_interp_matrices_error_iff_some_key : forall kw freqs f (D : sdict (list (mat (T:=R)))) e,
+  (1 < length freqs)%nat -> interp1d_plan NumR kw freqs f = inl e ->
+  freq_interp_matrices NumR kw freqs f D =
+    if existsb (fun k => match D k with Some _ => true | None => false end) SCAT_KEYS
+    then inl e else inr dict_empty.
+Proof. exact freq_interp_matrices_error. Qed.
+
+(* ONE sampled frequency: its matrices at any requested frequency, for any options (the
+   interpolator is never built); the warning is issued iff the frequency differs *)
+Theorem freq_single_table : forall kw f0 f (D : sdict (list (mat (T:=R)))),
+  (forall k, D k <> Some []) ->
+  exists out, freq_interp_matrices NumR kw [f0] f D = inr out /\
+    (forall k, match D k, out k with
+               | Some ms, Some m => forall j i, m j i = nth 0%nat ms M0 j i
+               | None, None => True
+               | _, _ => False
+               end) /\
+    freq_interp_warns NumR [f0] f = negb (Req_bool f f0).
+Proof. exact freq_interp_matrices_single. Qed.
+
+Theorem freq_no_frequency_is_index_error : forall kw f (D : sdict (list (mat (T:=R)))),
+  freq_interp_matrices NumR kw [] f D = inl ErrIndex.
+Proof. exact freq_interp_matrices_empty. Qed.
+
+(* --- C. ScatFromData.__call__ and __init__ -------------------------------------------------- *)
+
+(* the interpolation in frequency and the interpolation in angle commute *)
+Theorem freq_angle_interpolations_commute : forall P n p (ms : list (mat (T:=R))) a b,
+  interp NumR P n (apply_plan_mat NumR p ms) a b
+  = apply_plan NumR p (map (fun M => interp NumR P n M a b) ms).
+Proof. exact freq_angle_commute. Qed.
+
+(* hence the value returned by the call for a key is the interpolation in frequency of the
+   angle-interpolated sampled matrices of that key *)
+Theorem scat_data_call_is_freq_interp_of_angle_interp :
+  forall P n kw freqs (D : sdict (list (mat (T:=R)))) a b f out key ms,
+  (1 < length freqs)%nat -> D key = Some ms ->
+  scat_from_data_call NumR P n kw freqs D a b f = inr out ->
+  exists v, out key = Some v /\
+    interp1d NumR kw freqs (map (fun M => interp NumR P n M a b) ms) f = inr v.
+Proof. exact call_is_freq_interp_of_angle_interp. Qed.
+
+(* end to end: at a sampled frequency and at grid angles the call returns the stored entry
+   [j, i] = (scattered j, incident i), for frequencies listed in any order *)
+Theorem scat_data_call_reproduces_data :
+  forall P, 0 < P -> forall n, (1 <= n)%Z ->
+  forall kw freqs (D : sdict (list (mat (T:=R)))) key ms k i j,
+  NoDup freqs -> (2 <= length freqs)%nat -> length ms = length freqs -> kw_ok kw ->
+  D key = Some ms -> (k < length freqs)%nat -> (0 <= i < n)%Z -> (0 <= j < n)%Z ->
+  exists out,
+    scat_from_data_call NumR P n kw freqs D (angle NumR P n i) (angle NumR P n j) (nth k freqs 0) = inr out
+    /\ out key = Some (nth k ms M0 j i).
+Proof. exact call_reproduces_data. Qed.
+
+Theorem scat_data_call_single_frequency :
+  forall P n kw f0 f (D : sdict (list (mat (T:=R)))) a b key M,
+  (forall k, D k <> Some []) -> D key = Some [M] ->
+  exists out, scat_from_data_call NumR P n kw [f0] D a b f = inr out
+              /\ out key = Some (interp NumR P n M a b).
+Proof. exact call_single_frequency. Qed.
+
+(* the constructor accepts exactly: frequencies 0-d or 1-d, at least one matrix, every matrix
+   that is given of shape (numfreq, numangles, numangles) *)
+Theorem scat_data_init_accepts_iff : forall freq_shape shapes nf na,
+  sfd_init freq_shape shapes = inr (nf, na) <->
+  numfreq_of freq_shape = Some nf /\ (exists k s, shapes k = Some s) /\
+  (forall k s, shapes k = Some s -> s = [nf; na; na]).
+Proof. exact sfd_init_ok_iff. Qed.
+
+(* --- D. make_angles_grid, as_single_freq_matrices, as_multi_freq_matrices ------------------- *)
+
+(* meshgrid 'xy': the incident angle runs along the columns, the scattered angle along the rows;
+   an elementwise function evaluated on the two grids is the matrix of `matrix_layout` *)
+Theorem angles_grid_layout : forall (T : Type) (N : Num T) P n j i,
+  fst (make_angles_grid N P n) j i = angle N P n i /\ snd (make_angles_grid N P n) j i = angle N P n j.
+Proof. exact @grid_layout. Qed.
+
+Theorem matrix_on_grid_is_layout : forall (T : Type) (N : Num T) P n (f : T -> T -> T) j i,
+  matrix_on_grid f (fst (make_angles_grid N P n)) (snd (make_angles_grid N P n)) j i = matrix_of N P f n j i.
+Proof. exact @matrix_on_grid_is_matrix_of. Qed.
+
+(* as_multi_freq_matrices is the stack of as_single_freq_matrices: slab i of a requested key is
+   the single-frequency matrix of that key at frequencies[i], stored in an array whose dtype is
+   the dtype of THAT key at frequencies[0] (per key, not common); other keys are absent *)
+Theorem multi_freq_is_stack_of_single : forall (T : Type) (N : Num T) (S : scat_call (T:=T)) P n tc f0 r,
+  (forall f, In f (f0 :: r) -> forall k, memb k tc = true ->
+             as_single_freq_matrices N S P f n tc k <> None) ->
+  exists o, as_multi_freq_matrices N S P (f0 :: r) n tc = inr (Some o) /\
+    forall k, if memb k tc
+              then exists a, o k = Some (dtype_of (as_single_freq_matrices N S P f0 n tc) k, a) /\
+                   forall i j l, (i < length (f0 :: r))%nat ->
+                     a i j l = cast_to N (dtype_of (as_single_freq_matrices N S P f0 n tc) k)
+                                 (slab_of N (as_single_freq_matrices N S P (nth i (f0 :: r) (n0 N)) n tc) k j l)
+              else o k = None.
+Proof. exact @as_multi_is_stack. Qed.
+
+(* values that fit the dtype are stored unchanged (a complex value put into a float array loses
+   its imaginary part — this is what `cast_to` says) *)
+Theorem multi_freq_values_kept : forall (T : Type) (N : Num T) dt v,
+  well_typed N dt v -> cast_to N dt v = v.
+Proof. exact @cast_to_id. Qed.
+
+Theorem multi_freq_missing_key_is_keyerror :
+  forall (T : Type) (N : Num T) (S : scat_call (T:=T)) P n tc fs f k,
+  In f fs -> memb k tc = true -> as_single_freq_matrices N S P f n tc k = None ->
+  exists k', as_multi_freq_matrices N S P fs n tc = inl (MKeyError k').
+Proof. exact @as_multi_keyerror. Qed.
+
+Theorem multi_freq_no_frequency_is_none : forall (T : Type) (N : Num T) (S : scat_call (T:=T)) P n tc,
+  as_multi_freq_matrices N S P [] n tc = inr None.
+Proof. exact @as_multi_empty. Qed.
+
+(* --- E. rotation by whole numbers of grid steps --------------------------------------------- *)
+
+Theorem rotate_steps_compose : forall (T : Type) (n k l : Z) (M : Z -> Z -> T) j i,
+  shift_matrix n k (shift_matrix n l M) j i = shift_matrix n (k + l) M j i.
+Proof. exact @shift_compose. Qed.
+
+Theorem rotate_steps_mod_n : forall (T : Type) (n k : Z) (M : Z -> Z -> T) j i,
+  shift_matrix n (k mod n) M j i = shift_matrix n k M j i.
+Proof. exact @shift_mod. Qed.
+
+(* any whole number of full turns, negative included, is the identity *)
+Theorem rotate_full_turns_identity : forall (T : Type) (n m : Z) (M : Z -> Z -> T) j i,
+  (0 <= j < n)%Z -> (0 <= i < n)%Z -> shift_matrix n (m * n) M j i = M j i.
+Proof. exact @shift_full_turns. Qed.
+
+Theorem rotate_back_is_inverse : forall (T : Type) (n k : Z) (M : Z -> Z -> T) j i,
+  (0 <= j < n)%Z -> (0 <= i < n)%Z -> shift_matrix n (- k) (shift_matrix n k M) j i = M j i.
+Proof. exact @shift_inverse. Qed.
+
+(* rotate_matrices on a dict = rotate_matrix per key: same keys in the same order *)
+Theorem rotate_matrices_is_per_key :
+  forall (K T : Type) (eqb : K -> K -> bool) n k (items : list (K * (Z -> Z -> T))) key,
+  lookup eqb key (rotate_matrices_steps n k items) = option_map (shift_matrix n k) (lookup eqb key items).
+Proof. exact @rotate_matrices_per_key. Qed.
+
+Theorem rotate_matrices_keeps_keys : forall (K A B : Type) (g : A -> B) (items : list (K * A)),
+  map fst (dict_map_values g items) = map fst items.
+Proof. exact @dict_map_values_keys. Qed.
+
+Theorem rotate_matrices_compose_steps : forall (K T : Type) n k l (items : list (K * (Z -> Z -> T))),
+  Forall2 (fun a b => fst a = fst b /\ forall j i, snd a j i = snd b j i)
+          (rotate_matrices_steps n k (rotate_matrices_steps n l items))
+          (rotate_matrices_steps n (k + l) items).
+Proof. exact @rotate_matrices_compose. Qed.
+
+(* the FFT route: the phase ramps of two rotations by ANY real angles multiply to the ramp of the
+   sum; a whole number of full turns is the identity on the spectrum for every matrix size *)
+Theorem rotate_fft_composes : forall X n a b k1 k2,
+  rotate_spectrum (rotate_spectrum X n a) n b k1 k2 = rotate_spectrum X n (a + b) k1 k2.
+Proof. exact rotate_spectrum_compose. Qed.
+
+Theorem rotate_fft_full_turns : forall X n (m : Z) k1 k2,
+  rotate_spectrum X n (2 * PI * IZR m) k1 k2 = X k1 k2.
+Proof. exact rotate_spectrum_full_turns. Qed.
+
+(* --- F. scat_factory ------------------------------------------------------------------------- *)
+Local Open Scope string_scope.
+
+Theorem scat_factory_dispatch : forall (A : Type) (m : material A) args kwargs,
+  scat_factory "file" m args kwargs = inr (mk_call CLoadScat args kwargs) /\
+  scat_factory "crack_centre" m args kwargs =
+    inr (mk_call CCrackCentreScat args
+           (("longitudinal_vel", m_vl m) :: ("transverse_vel", m_vt m) :: ("density", m_rho m) :: kwargs)) /\
+  scat_factory "crack_tip" m args kwargs = inr (mk_call CCrackTipScat (m_vl m :: m_vt m :: args) kwargs) /\
+  scat_factory "sdh" m args kwargs =
+    inr (mk_call CSdhScat args (("longitudinal_vel", m_vl m) :: ("transverse_vel", m_vt m) :: kwargs)) /\
+  scat_factory "point" m args kwargs = inr (mk_call CPointSourceScat (m_vl m :: m_vt m :: args) kwargs).
+Proof. exact @scat_factory_table. Qed.
+
+Theorem scat_factory_ignores_case : forall (A : Type) s1 s2 (m : material A) args kwargs,
+  lower s1 = lower s2 -> scat_factory s1 m args kwargs = scat_factory s2 m args kwargs.
+Proof. exact @scat_factory_case_insensitive. Qed.
+
+Theorem scat_factory_exhaustive : forall (A : Type) s (m : material A) args kwargs,
+  match scat_factory s m args kwargs with
+  | inr c => match c_ctor c with
+             | CLoadScat => lower s = "file"
+             | CCrackCentreScat => lower s = "crack_centre"
+             | CCrackTipScat => lower s = "crack_tip"
+             | CSdhScat => lower s = "sdh"
+             | CPointSourceScat => lower s = "point"
+             end
+  | inl msg => msg = lower s /\ ~ In (lower s) ["file"; "crack_centre"; "crack_tip"; "sdh"; "point"]
+  end.
+Proof. exact @scat_factory_ctor. Qed.
+Local Close Scope string_scope.
+
+(* --- non-vacuity: the table 3 -> 30, 1 -> 10, 2 -> 25 given in that (unsorted) order ---------- *)
+Example freq_table_example_hyps :
+  NoDup (map fst [(3, 30); (1, 10); (2, 25)]) /\ no_key_between [(3, 30); (1, 10); (2, 25)] 2 3 /\
+  no_key_between [(3, 30); (1, 10); (2, 25)] 1 2 /\ is_min_key [(3, 30); (1, 10); (2, 25)] 1 /\
+  is_max_key [(3, 30); (1, 10); (2, 25)] 3.
+Proof.
+  split; [cbn; repeat constructor; cbn; intuition lra|].
+  repeat split; intros p [<-|[<-|[<-|[]]]]; cbn; lra.
+Qed.
+
+Example freq_table_example_order : forall kw f,
+  interp1d_table kw [(3, 30); (1, 10); (2, 25)] f = interp1d_table kw [(1, 10); (2, 25); (3, 30)] f.
+Proof.
+  intros kw f. apply freq_table_order_irrelevant; [|apply freq_table_example_hyps].
+  apply (Permutation_cons_append [(1, 10); (2, 25)] (3, 30)).
+Qed.
+
+Example freq_table_example_exact : interp1d_table arim_default_kwargs [(3, 30); (1, 10); (2, 25)] 2 = inr 25.
+Proof.
+  apply freq_table_exact_at_samples;
+    [apply freq_table_example_hyps|cbn; lia|cbn; auto|apply arim_default_kw_ok].
+Qed.
+
+Example freq_table_example_between :
+  interp1d_table arim_default_kwargs [(3, 30); (1, 10); (2, 25)] (5 / 2) = inr (lerp NumR 2 3 25 30 (5 / 2)).
+Proof.
+  apply freq_table_linear_between;
+    [apply freq_table_example_hyps|cbn; auto|cbn; auto|apply freq_table_example_hyps
+    |apply arim_default_kw_ok|lra].
+Qed.
+
+Example freq_table_example_below_extrapolated :
+  interp1d_table arim_default_kwargs [(3, 30); (1, 10); (2, 25)] 0 = inr (lerp NumR 1 2 10 25 0).
+Proof.
+  apply (freq_table_below_range arim_default_kwargs _ 1 10 2 25 0 true false 0 0);
+    try apply freq_table_example_hyps; [cbn; auto|cbn; auto|lra|reflexivity|lra].
+Qed.
+
+Example freq_table_example_below_raises :
+  interp1d_table (mk_kw None (FillBoth 0)) [(3, 30); (1, 10); (2, 25)] 0 = inl ErrBelowRange.
+Proof.
+  apply (freq_table_below_range (mk_kw None (FillBoth 0)) _ 1 10 2 25 0 false true 0 0);
+    try apply freq_table_example_hyps; [cbn; auto|cbn; auto|lra|reflexivity|lra].
+Qed.
+
+Example freq_table_example_above_filled :
+  interp1d_table (mk_kw (Some false) (FillPair 7 9)) [(3, 30); (1, 10); (2, 25)] 4 = inr 9.
+Proof.
+  apply (freq_table_above_range (mk_kw (Some false) (FillPair 7 9)) _ 2 25 3 30 4 false false 7 9);
+    try apply freq_table_example_hyps; [cbn; auto|cbn; auto|lra|reflexivity|lra].
+Qed.
+
+(* a scatterer with the frequencies 3, 1 (in that order) and the key LL only *)
+Example scat_data_call_example : forall Ma Mb : mat (T:=R),
+  exists out,
+    scat_from_data_call NumR 1 2 arim_default_kwargs [3; 1]
+      (fun k => match k with LL => Some [Ma; Mb] | _ => None end)
+      (angle NumR 1 2 1) (angle NumR 1 2 0) 3 = inr out
+    /\ out LL = Some (Ma 0%Z 1%Z).
+Proof.
+  intros Ma Mb.
+  apply (scat_data_call_reproduces_data 1 ltac:(lra) 2 ltac:(lia) arim_default_kwargs [3; 1]
+           (fun k => match k with LL => Some [Ma; Mb] | _ => None end) LL [Ma; Mb] 0%nat 1%Z 0%Z);
+    try (cbn; lia); try reflexivity; try apply arim_default_kw_ok.
+  repeat constructor; cbn; intuition lra.
+Qed.
+
+Example scat_data_init_examples :
+  sfd_init [2%nat] (fun k => match k with LL | TT => Some [2; 4; 4]%nat | _ => None end) = inr (2%nat, 4%nat) /\
+  sfd_init [] (fun k => match k with LT => Some [1; 4; 4]%nat | _ => None end) = inr (1%nat, 4%nat) /\
+  sfd_init [2%nat] (fun k => match k with LL => Some [2; 4; 4]%nat | TT => Some [2; 5; 5]%nat | _ => None end)
+    = inl EShapesDiffer /\
+  sfd_init [3%nat] (fun k => match k with LL => Some [2; 4; 4]%nat | _ => None end) = inl EWrongShape /\
+  sfd_init [2%nat] (fun _ => None) = inl ENoMatrix /\
+  sfd_init [1; 2]%nat (fun k => match k with LL => Some [2; 4; 4]%nat | _ => None end) = inl EFreqNot1d.
+Proof. repeat split. Qed.
+
+(* a scatterer returning, for every key, a complex matrix built from the two grids *)
+Example multi_freq_example :
+  exists o, as_multi_freq_matrices NumR (fun inc out f _ _ => Some (C128, fun j i => (inc j i + f, out j i))) 1
+              [5; 7] 2 [LL; TT] = inr (Some o)
+            /\ o LT = None
+            /\ exists a, o TT = Some (C128, a) /\ a 1%nat 0%Z 1%Z = (angle NumR 1 2 1 + 7, angle NumR 1 2 0).
+Proof.
+  destruct (multi_freq_is_stack_of_single R NumR (fun inc out f _ _ => Some (C128, fun j i => (inc j i + f, out j i)))
+              1 2 [LL; TT] 5 [7]) as (o & Ho & Hk); [intros; discriminate|].
+  exists o. split; [exact Ho|]. split; [exact (Hk LT)|].
+  destruct (Hk TT) as (a & Ea & Ha). exists a. split; [exact Ea|].
+  rewrite (Ha 1%nat 0%Z 1%Z) by (cbn; lia). reflexivity.
+Qed.
+
+Example rotate_full_turns_example : forall (M : Z -> Z -> R),
+  shift_matrix 4 (-3 * 4) M 1 2 = M 1%Z 2%Z.
+Proof. intros M. apply rotate_full_turns_identity; lia. Qed.
+
+Example scat_factory_examples : forall (m : material R) (r : R),
+  scat_factory "SDH" m [r] [] =
+    inr (mk_call CSdhScat [r] [("longitudinal_vel"%string, m_vl m); ("transverse_vel"%string, m_vt m)]) /\
+  scat_factory "Crack_Tip" m [] [] = inr (mk_call CCrackTipScat [m_vl m; m_vt m] []) /\
+  scat_factory "sphere" m [] [] = inl "sphere"%string.
+Proof. repeat split. Qed.
